@@ -139,22 +139,44 @@ def freeze(obj):
 # ----------------------------------------------------------------------------------------------
 
 SHAPES = [(vk, basis, ns) for vk in ("scalar", "array") for basis in ("cum", "inc") for ns in (1, 2, 3)]
+# row layouts handed out to the shapes of one operation in turn: regular triangle, INTERIOR GAPS in the
+# period rows, ragged rows
+LAYOUTS = ["triangle", "gappy", "triangle", "ragged"]
+BIG_SAMPLES = 1024          # "large sample" shape: >= 1000 samples per cell (a few cells suffice)
 
 
-def base_triangle(rng, vk, basis, n_slices, res=None, fields=None, n_periods=None, currency="USD"):
-    """regular triangle, all slices share the layout (so that blend / summarize / merge apply)"""
+def base_triangle(rng, vk, basis, n_slices, res=None, fields=None, n_periods=None, currency="USD",
+                  layout="triangle"):
+    """all slices share the layout (so that blend / summarize / merge apply). layout: regular
+    'triangle', 'gappy' (an interior evaluation is missing in some period rows), 'ragged'.
+    vk 'big': arrays of BIG_SAMPLES samples."""
     res = res or rng.choice([12, 3])
     fields = fields or ["paid_loss", "reported_loss", "earned_premium"]
     n_periods = n_periods or rng.randrange(2, 4)
     y0 = rng.randrange(2000, 2020)
-    rows = gen.layout_regular(rng, res=res, n_periods=n_periods, n_lags=n_periods, start_year=y0, shape="triangle")
+    if layout == "gappy":
+        n_periods = max(n_periods, 3)
+        rows = gen.layout_regular(rng, res=res, n_periods=n_periods, n_lags=n_periods + 1, start_year=y0, shape="square")
+        gapped, any_gap = [], False
+        for ps, pe, evals in rows:
+            if len(evals) >= 3 and (not any_gap or rng.random() < 0.5):
+                k = rng.randrange(1, len(evals) - 1)
+                evals = evals[:k] + evals[k + 1:]
+                any_gap = True
+            gapped.append((ps, pe, evals))
+        rows = gapped
+    elif layout == "ragged":
+        rows = gen.layout_regular(rng, res=res, n_periods=n_periods, n_lags=n_periods + 1, start_year=y0, shape="ragged")
+    else:
+        rows = gen.layout_regular(rng, res=res, n_periods=n_periods, n_lags=n_periods, start_year=y0, shape="triangle")
     cells = []
     for i in range(n_slices):
         m = Metadata(currency=currency, country="US", details={"id": i + 1, "line": "a"},
                      loss_details={"cov": "x"} if i % 2 else {})
         kind = "U" if basis == "cum" else "I"
         cells += gen.cells_from_layout(rng, rows, m, kind=kind, fields=fields,
-                                       vkind="float" if vk == "scalar" else "farr", n_samples=4)
+                                       vkind="float" if vk == "scalar" else "farr",
+                                       n_samples=BIG_SAMPLES if vk == "big" else 4)
     rng.shuffle(cells)
     # strictly positive values (ratios, logs)
     out = []
@@ -173,11 +195,52 @@ REGISTRY = {}
 SLOW_OPS = {"to_chain_ladder"}
 
 
-def op(name, chain=False, plot=False, res=None, basis=None, vk=None):
+def op(name, chain=False, plot=False, res=None, basis=None, vk=None, variant=False):
     def deco(f):
-        REGISTRY[name] = {"build": f, "chain": chain, "plot": plot, "res": res, "basis": basis, "vk": vk}
+        REGISTRY[name] = {"build": f, "chain": chain, "plot": plot, "res": res, "basis": basis, "vk": vk,
+                          "variant": variant}
         return f
     return deco
+
+
+def interior_gaps(t, rng=None):
+    """drop one INTERIOR evaluation from every period row that has at least three; when no row is
+    long enough (and an rng is given) a fresh triangle with interior gaps is generated instead"""
+    if rng is not None and all(len(row) < 3 for _, row in t.slice_period_rows):
+        arr = any(isinstance(v, np.ndarray) for c in t.cells for v in c.values.values())
+        return base_triangle(rng, "array" if arr else "scalar", "inc" if t.is_incremental else "cum",
+                             len(t.slices), layout="gappy")
+    cells = []
+    for _, row in t.slice_period_rows:
+        row = list(row)
+        if len(row) >= 3:
+            del row[1]
+        cells += row
+    return Triangle(cells)
+
+
+def option_variants(prefix, fn, argb, enums=None, skip=(), **flags):
+    """one registry entry per NON-DEFAULT value of every boolean option of `fn` (read from its signature)
+    and of the listed enum options: `prefix(option=value)`. `argb(rng, t)` builds the positional
+    arguments (all fingerprinted)."""
+    import inspect
+    sig = inspect.signature(fn)
+    alts = {}
+    for name, prm in sig.parameters.items():
+        if name in skip:
+            continue
+        if isinstance(prm.default, bool):
+            alts[name] = [not prm.default]
+    for name, vals in (enums or {}).items():
+        alts[name] = list(vals)
+    for name, vals in alts.items():
+        for val in vals:
+            def build(rng, t, _n=name, _v=val):
+                args = argb(rng, t)
+                return (lambda *a: fn(*a, **{_n: _v}), args, {})
+            REGISTRY[f"{prefix}({name}={val!r})"] = {"build": build, "chain": False, "plot": flags.get("plot", False),
+                                                    "res": flags.get("res"), "basis": flags.get("basis"),
+                                                    "vk": flags.get("vk"), "variant": True}
 
 
 def other_like(rng, t, id_shift=10, fields=None):
@@ -443,8 +506,7 @@ def _(rng, t):
 
 @op("fill_forward_gaps", chain=True)
 def _(rng, t):
-    cells = [c for i, c in enumerate(t.cells) if i % 4 != 1] or t.cells
-    return (lambda a: fill_forward_gaps(a), [Triangle(cells)], {})
+    return (lambda a: fill_forward_gaps(a), [interior_gaps(t, rng)], {})
 
 
 @op("backfill", chain=True)
@@ -634,7 +696,62 @@ def _plot_builder(name):
 
 for _n in PLOT_NAMES:
     REGISTRY["Triangle." + _n] = {"build": _plot_builder(_n), "chain": False, "plot": True, "res": None,
-                                  "basis": "cum", "vk": None}
+                                  "basis": "cum", "vk": None, "variant": False}
+
+
+# --- option variants: every boolean option flipped, every listed enum value, one at a time ---------
+def _chart(f):
+    def g(*a, **k):
+        with warnings.catch_warnings():
+            warnings.simplefilter("ignore")
+            return f(*a, **k).to_dict(validate=False)["$schema"]
+    g.__signature__ = __import__("inspect").signature(f)
+    return g
+
+
+option_variants("fill_forward_gaps", fill_forward_gaps, lambda rng, t: [interior_gaps(t, rng)])
+option_variants("backfill", backfill, lambda rng, t: [t], enums={"min_dev_lag": [-12]})
+option_variants("aggregate", U.aggregate, lambda rng, t: [t, (12, "month")], res=3)
+option_variants("summarize", U.summarize, lambda rng, t: [t])
+option_variants("accident_quarter_to_policy_year", U.accident_quarter_to_policy_year,
+                lambda rng, t: [t, 12, min(c.period_start for c in t.cells)], res=3, basis="cum")
+option_variants("make_right_diagonal", U.make_right_diagonal,
+                lambda rng, t: [t, [gen.add_months_int(max(t.evaluation_dates), 12, end=True)]])
+option_variants("make_right_triangle", U.make_right_triangle, lambda rng, t: [t],
+                enums={"dev_lag_unit": ["day"], "dev_lags": [[0, 12, 24, 36, 48]]})
+option_variants("disaggregate_development", U.disaggregate_development, lambda rng, t: [t, 6], res=12, basis="cum",
+                enums={"interpolation_method": ["nearest"]})
+option_variants("disaggregate", U.disaggregate, lambda rng, t: [t, 6, 6], res=12, basis="cum")
+option_variants("weight_geometric_decay", U.weight_geometric_decay, lambda rng, t: [t, 0.9],
+                enums={"basis": ["experience"], "tri_fields": ["paid_loss"]})
+option_variants("reported_bs_adjustment", U.reported_bs_adjustment,
+                lambda rng, t: [t.derive_fields(open_claims=lambda c: c["paid_loss"] * 0 + 5.0,
+                                                cwp_claims=lambda c: c["paid_loss"] * 0 + 10.0), 0.05],
+                basis="cum", enums={"sev_trend_method": ["latest", "all"]})
+option_variants("blend", U.blend, lambda rng, t: [[t, full_copy(t)]],
+                enums={"weights": [None], "method": ["linear"], "seed": [11]})
+option_variants("merge", U.merge, lambda rng, t: [t, other_like(rng, t).derive_fields(extra=lambda c: c["paid_loss"])],
+                enums={"join_type": ["inner", "left", "right", "left_anti", "right_anti"]})
+option_variants("join", U.join, lambda rng, t: [t, other_like(rng, t)],
+                enums={"join_type": ["inner", "left", "right", "left_anti", "right_anti"]})
+option_variants("thin", thin, lambda rng, t: [t, 2], vk="array", enums={"seed": [None]})
+option_variants("moment_match", U.moment_match, lambda rng, t: [t, ["paid_loss"]], vk="array",
+                enums={"distribution": ["normal", "lognormal", "gamma"]})
+option_variants("build_plot_data", P.build_plot_data, lambda rng, t: [t],
+                enums={"metric_dict": [{"Paid Loss": P.COMMON_METRIC_DICT["Paid Loss"]}]})
+option_variants("to_binary", bermuda.io.triangle_to_binary, lambda rng, t: [t, tmp_path(".trib")])
+for _n in PLOT_NAMES:
+    if _n in ("plot_drip", "plot_hose"):
+        continue
+    _enums = {}
+    _sig = __import__("inspect").signature(getattr(P, _n)).parameters
+    if "uncertainty_type" in _sig:
+        _enums["uncertainty_type"] = ["segments"]
+    if "ncols" in _sig:
+        _enums["ncols"] = [1]
+    if "metric_spec" in _sig:
+        _enums["metric_spec"] = [["Paid Loss", "Reported Loss"]]
+    option_variants("Triangle." + _n, _chart(getattr(P, _n)), lambda rng, t: [t], enums=_enums, plot=True, basis="cum")
 
 
 # ----------------------------------------------------------------------------------------------
@@ -693,13 +810,23 @@ def run_scenario(ctx, name, shape, position, seed, readonly):
     """returns (case, scenario, outcome of the operation under test)"""
     entry = REGISTRY[name]
     rng = random.Random(seed)
-    vk, basis, ns = shape
-    vk = entry["vk"] or vk
+    vk, basis, ns, layout = shape
+    vk = vk if vk == "big" and entry["vk"] != "scalar" else (entry["vk"] or ("array" if vk == "big" else vk))
     basis = entry["basis"] or basis
-    t0 = base_triangle(rng, vk, basis, ns, res=entry["res"], n_periods=2 if entry["plot"] else None)
+    t0 = base_triangle(rng, vk, basis, ns, res=entry["res"], layout=layout,
+                       n_periods=2 if (entry["plot"] or vk == "big") and layout != "gappy" else None)
     links = [n for n, e in REGISTRY.items() if e["chain"] and n != name]
     chain = [rng.choice(links) for _ in range(position)]
-    case = {"op": name, "shape": {"values": vk, "basis": basis, "slices": ns}, "position": position,
+    if entry["plot"] and vk in ("array", "big"):
+        # plots: observed (scalar) first evaluation of every period, predicted samples afterwards
+        # (an all-sample triangle makes `_remove_triangle_samples` return an empty triangle)
+        first = {}
+        for c in t0.cells:
+            k = (c.metadata, c.period)
+            first[k] = min(first.get(k, c.evaluation_date), c.evaluation_date)
+        t0 = Triangle([c.replace(values={k: float(np.mean(v)) for k, v in c.values.items()})
+                       if c.evaluation_date == first[(c.metadata, c.period)] else c for c in t0.cells])
+    case = {"op": name, "shape": {"values": vk, "basis": basis, "slices": ns, "layout": layout}, "position": position,
             "chain": chain, "seed": seed, "readonly_run": readonly, "cells": w_cells(t0.cells)}
     sc = Scenario(ctx, name, shape, position, seed, readonly)
     sc.remember("initial", t0)
@@ -823,9 +950,85 @@ def helper_cases(ctx, rng, n):
     return reqs, impls
 
 
+def cell_helper_cases(ctx, rng, n):
+    """the cell-level helpers of the heap model (thin, currency, select, derive_fields, add_statics,
+    overwrite, summarize_cell_values) against the implementation"""
+    from bermuda.utils.thin import _thin_cell
+    from bermuda.utils.currency import _convert_cell_currency, CURRENCY_FIELDS
+    reqs, impls = [], []
+    all_keys = ["paid_loss", "reported_loss", "earned_premium", "reported_claims"]
+
+    def vals(arr, keys):
+        return {kk: (np.array([gen.dyadic(rng, 1, 64) for _ in range(4)]) if arr and rng.random() < 0.8
+                     else float(gen.dyadic(rng, 1, 64))) for kk in keys}
+
+    def cell(v):
+        return Cell(D(2020, 1, 1), D(2020, 12, 31), D(2020, 12, 31), v)
+
+    def wire(d):
+        return [[kk, w_val(v)] for kk, v in d.items()]
+    for i in range(n):
+        kind = rng.choice(["thin", "currency", "select", "derive_fields", "add_statics", "overwrite", "summarize_cells"])
+        arr = rng.random() < 0.7
+        keys = all_keys[: rng.randrange(1, 5)]
+        a = vals(arr, keys)
+        args = [a]
+        req = {"fn": kind, "a": wire(a)}
+        try:
+            if kind == "thin":
+                ndxs = sorted(rng.sample(range(4), 2))
+                req["ndxs"] = ndxs
+                res = _thin_cell(cell(a), np.array(ndxs)).values
+            elif kind == "currency":
+                rate = rng.choice([0.5, 2.0, 1.25])
+                req["fields"], req["rate"] = list(CURRENCY_FIELDS), common.w_rat(rate)
+                res = _convert_cell_currency(cell(a), rate, "EUR").values
+            elif kind == "select":
+                ks = [k for k in all_keys if rng.random() < 0.6]
+                req["keys"] = ks
+                res = cell(a).select(ks).values
+            elif kind == "derive_fields":
+                defs = vals(arr, rng.sample(["case_reserve", "paid_loss", "x"], 2))
+                args.append(defs)
+                req["defs"] = wire(defs)
+                res = cell(a).derive_fields(**defs).values
+            elif kind in ("add_statics", "overwrite"):
+                b = vals(arr, rng.sample(all_keys + ["earned_exposure"], 3))
+                args.append(b)
+                req["b"] = wire(b)
+                if kind == "add_statics":
+                    req["fields"] = ["earned_premium", "earned_exposure"]
+                    res = cell(a).add_statics(cell(b), req["fields"]).values
+                else:
+                    sfx = rng.choice([None, "_p"])
+                    if sfx:
+                        req["suffix"] = sfx
+                    res = M._overwrite_values(cell(a), cell(b), sfx).values
+            else:
+                skeys = ["paid_loss", "reported_loss", "earned_premium"][: rng.randrange(1, 4)]
+                cells_v = [vals(arr, skeys) for _ in range(rng.randrange(1, 4))]
+                args = cells_v
+                req = {"fn": kind, "cells": [wire(v) for v in cells_v], "keys": sorted(skeys)}
+                res = S.summarize_cell_values([cell(v) for v in cells_v])
+            before = None
+            out = {"ok": sorted([kk, w_val(v)] for kk, v in res.items())}
+            arg_vals = [x for d in args for x in d.values()]
+            alias = sorted(kk for kk, v in res.items()
+                           if any(v is x and isinstance(v, np.ndarray) or
+                                  (isinstance(v, np.ndarray) and isinstance(x, np.ndarray) and np.shares_memory(v, x))
+                                  for x in arg_vals))
+        except Exception as e:  # noqa: BLE001
+            out, alias = {"err": type(e).__name__}, []
+        reqs.append(req)
+        impls.append({"out": out, "alias": alias if arr else None, "kind": kind, "unchanged": True})
+    return reqs, impls
+
+
 def heap_correspondence(ctx, rng):
     n = 2000 if ctx.thorough else 200
     reqs, impls = helper_cases(ctx, rng, n)
+    reqs2, impls2 = cell_helper_cases(ctx, rng, n)
+    reqs, impls = reqs + reqs2, impls + impls2
     outs = common.Driver("drv_c03").run(reqs)
     for req, impl, out in zip(reqs, impls, outs):
         ctx.case(digest=json.dumps(req, sort_keys=True), nontrivial=True, sample=None)
@@ -848,7 +1051,7 @@ def heap_correspondence(ctx, rng):
             if impl["alias"] is not None and "alias" in out and impl["kind"] in ("sum", "wavg"):
                 if bool(out["alias"]) != bool(impl["alias"]):
                     ctx.disagree(f"heap model {impl['kind']}: result aliases an argument", req, out["alias"], impl["alias"])
-            if impl["alias"] is not None and impl["kind"] in ("vadd", "vdiff", "merge"):
+            if impl["alias"] is not None and impl["kind"] not in ("sum", "wavg"):
                 if sorted(out["alias"]) != impl["alias"]:
                     ctx.disagree(f"heap model {impl['kind']}: aliased result entries", req, out["alias"], impl["alias"])
 
@@ -882,20 +1085,38 @@ def correspondence(ctx):
         for oi, name in enumerate(names):
             entry = REGISTRY[name]
             shapes = rng.sample(SHAPES, n_shapes)
+            slow = entry["plot"] or name in SLOW_OPS
+            variant = entry.get("variant", False)
             for si, shape in enumerate(shapes):
+                shape = shape + (LAYOUTS[(si + oi) % len(LAYOUTS)],)
                 if entry["plot"] and shape[2] == 3:
-                    shape = (shape[0], shape[1], 2)          # plots: at most 2 slices (run time)
+                    shape = (shape[0], shape[1], 2, shape[3])   # plots: at most 2 slices (run time)
                 for position in (0, 1, 2):
                     if ctx.thorough and rep > 0:
                         position = rng.randrange(0, 9)
-                    slow = entry["plot"] or name in SLOW_OPS
-                    if slow and (ctx.thorough and rep > 2 or not ctx.thorough and si > 1):
-                        continue          # slow operations (altair, chainladder): two shapes x 3 positions in quick
+                    if ctx.thorough:
+                        if slow and rep > (0 if variant else 2):
+                            continue
+                    else:
+                        # quick: slow operations (altair, chainladder) 1 shape x 3 positions; option variants
+                        # 2 shapes x positions 0 and 2 (slow variants: one shape, position 0, plain run only)
+                        if slow and variant and (si != 0 or position != 0):
+                            continue
+                        if slow and si > 0:
+                            continue
+                        if variant and (si > 1 or position == 1):
+                            continue
                     seed = rng.randrange(1 << 30)
                     for readonly in (False, True):
-                        if slow and readonly and position != 0:
+                        if slow and readonly and (position != 0 or variant and not ctx.thorough):
                             continue
                         tasks.append((name, shape, position, seed, readonly))
+            # the LARGE SAMPLE shape (>= 1000 samples per cell, a few cells): numpy fast paths that work in
+            # place only show up there. Every operation that accepts arrays, position 0, both runs.
+            if entry["vk"] != "scalar" and (not ctx.thorough or rep < 3) and not (slow and variant and not ctx.thorough):
+                seed = rng.randrange(1 << 30)
+                for readonly in (False, True):
+                    tasks.append((name, ("big", "cum", 1, "triangle"), 0, seed, readonly))
     # scenarios are independent (own seed each): run them in worker processes, merge in task order
     results = run_tasks(tasks)
     for i, res in enumerate(results):
@@ -913,6 +1134,7 @@ def correspondence(ctx):
                  sample={"op": name, "shape": res["shape"], "position": position, "chain": res["chain"],
                          "outcomes": res["trace"]} if i % 401 == 200 else None)
         ctx.count(f"shape/{shape[0]}-{shape[1]}-{shape[2]}")
+        ctx.count(f"layout/{shape[3]}")
         ctx.count(f"position/{min(position, 3)}{'+' if position >= 3 else ''}")
         ctx.count("run/readonly" if readonly else "run/plain")
     never = sorted(n for n, s in stats.items() if not s.get("returned"))
